@@ -223,6 +223,9 @@ def c08(rep, env):
         MI.check_overrides(rep, fb)
         MI.check_plumbing(rep, fb)
         BM.check_dependence(rep, fb, crates={"cfb_mode", "cfb8"})
+        # the byte-level decrypt of CFB / CFB-8 (AsyncStreamCipher) hands whole groups of blocks to the
+        # parallel body and the rest to the one-block kernel: where a call is cut decides which
+        only(rep, lambda r: BM.check_par(r, fb, crates={"cfb_mode", "cfb8", "ofb"}), pre("par."))
     per_config(rep, env, f)
 
 
@@ -234,6 +237,9 @@ def c09(rep, env):
         only(rep, lambda r: SM.check_ctr_core(r, fb), pre("ctr.core"))
         only(rep, lambda r: SM.check_belt(r, fb, parts=("export",)), pre("ivstate."))
         BC.check_state(rep, fb)
+        # "the exported (block, position) pair resumes correctly at any byte position": the pair
+        # left behind by every call must be the one the definition prescribes (also for an empty call)
+        only(rep, lambda r: BC.check_definition(r, fb), pre("buf.def", "buf.paths"))
         # a resumed run partitions the blocks into calls differently from the uninterrupted one:
         # "continues exactly" needs the parallel bodies to agree with the one-block kernels
         only(rep, lambda r: BM.check_par(r, fb), pre("par.closed-form"))
